@@ -40,13 +40,14 @@ def run_instance(module, name, params, hcfg, func, bound, max_paths=20000):
         pins = model_pins(model)
         o.status = 'refuted'
         text = f'goal {gname} fails on path {trace} with {pins}' if not gname.startswith('ghost:') else f'{gname}: {reason} (path {trace})'
-        code = None
-        if not gname.startswith('ghost:'):
-            code = replay_code(module, name, params, hcfg, pins)
-            ok, out = replay(module, name, dict(params), hcfg, pins)
+        # native replay with every symbol pinned to the model: value goals always; ghost obligations only reproduce natively when they are
+        # conditions on plain Python objects (frame conditions, result types) - degree/leak ghosts need the proxies and stay without input
+        code = replay_code(module, name, params, hcfg, pins)
+        ok, out = replay(module, name, dict(params), hcfg, pins)
+        if ok is False or not gname.startswith('ghost:'):
             text += f' | native replay: {out}'
-            if ok is not False:
-                code = None          # did not reproduce natively with the randomness pinned: keep as refuted w/o input
+        if ok is not False:
+            code = None          # did not reproduce natively with the randomness pinned: keep as refuted w/o input
         o.witness = dict(key=f'{func}:{name}:{gname}', text=text, replay=code)
         o.detail += ' | ' + text
     return [o]
@@ -73,6 +74,9 @@ def replay(module, name, params, hcfg, pins):
         if bad:
             return False, f'real code with inputs/randomness {syms} violates {bad}; result {out!r}'
         return True, f'contract holds natively for {syms}'
+    except sym.GhostViolation as g:
+        syms = {n: pins.get(n, lo) for n, lo, hi in C.symbols}
+        return False, f'real code with inputs/randomness {syms} violates the ghost obligation {g.kind}: {g.text}'
     except Exception as e:
         return None, f'replay crashed: {type(e).__name__}: {e}'
     finally:
